@@ -39,11 +39,15 @@ def orders(maxsize):
 DIMS = {
     'order': None,      # filled in explore
     'hist': ['model-first', 'contrib-first', 'full-first'],
-    'species': [['H2O', 'CH4'], ['H2O'], ['CH4'], ['CO2'], ['H2O', 'CO2'], ['CH4', 'CO2'], ['H2O', 'CH4', 'CO2']],
+    'species': [['H2O', 'CH4', 'CO2'], ['H2O'], ['CH4'], ['CO2'], ['H2O', 'CO2'], ['CH4', 'CO2'], ['H2O', 'CH4']],
     'abund': [[1e-4, 3e-5, 1e-5], [0.0, 3e-5, 1e-5], [1e-4, 0.0, 1e-5], [1e-4, 3e-5, 0.0], [1e-6, 1e-6, 1e-6],
               [1e-3, 1e-3, 1e-3], [0.0, 0.0, 0.0]],
     'N': [3, 2, 5],
     'mag': ['tau1', 'thin', 'mixed'],
+    # default letters are the collision-prone ones: adjacent layers at exactly equal temperature, abundances that
+    # vary with altitude (squeezing the fill gases) and one species that is exactly zero in part of the atmosphere
+    'T': [['steps'], ['dec'], ['iso', 1000.0]],
+    'shape': ['vary', 'const'],
 }
 
 
@@ -75,12 +79,20 @@ def contrib_spec(c, N):
 
 def spec_of(case, order, drop=None):
     gases = []
+    N = case['N']
     for mol, ab in zip(MOLS, case['abund']):
         if mol in case['species'] and mol != drop:
-            gases.append([mol, ['const', ab]])
+            if case.get('shape', 'const') == 'const' or ab == 0.0:
+                gases.append([mol, ['const', ab]])
+            elif mol == 'H2O':      # large at depth: squeezes the fill gases layer by layer
+                gases.append([mol, ['array', [float(v) for v in np.geomspace(0.2, max(ab, 1e-7), N)]]])
+            elif mol == 'CO2':      # exactly zero in the lower part of the atmosphere only
+                gases.append([mol, ['array', [0.0] * (N // 2) + [ab] * (N - N // 2)]])
+            else:
+                gases.append([mol, ['array', [float(v) for v in np.geomspace(ab, ab * 1e-2, N)]]])
     if 'hm' in order:
         gases += [['H', ['const', 1e-3]], ['e-', ['const', 1e-7]]]
-    return {'kind': 'transmission', 'N': case['N'], 'T': ['dec'], 'gases': gases,
+    return {'kind': 'transmission', 'N': case['N'], 'T': case.get('T', ['dec']), 'gases': gases,
             'contribs': [contrib_spec(c, case['N']) for c in order]}
 
 
@@ -209,7 +221,29 @@ def case_fn(case):
                 chi = np.asarray(mv.chemistry.get_gas_mix_profile(name), float)
                 ref = rayleigh_sigma_from_name(name, grid)[None, :] * chi[:, None]
             r.eq(sig, ref, 'component-weighted-opacity', 'component/' + nm, component=name, atol=1e-300)
-            total += ref
+        # the components a source must have, decided independently of what it yielded
+        if nm == 'AbsorptionContribution':
+            expected = list(mv.chemistry.activeGases)
+        elif nm == 'CIAContribution':
+            expected = ['H2-H2', 'H2-He']
+        else:
+            expected = [g for g in list(mv.chemistry.activeGases) + list(mv.chemistry.inactiveGases)
+                        if rayleigh_sigma_from_name(g, grid) is not None and
+                        np.max(np.asarray(mv.chemistry.get_gas_mix_profile(g), float)) > 0]
+        r.check(sorted(seen) == sorted(expected), 'component-set', 'component-set/' + nm, got=sorted(seen),
+                want=sorted(expected))
+        for name in expected:
+            if nm == 'AbsorptionContribution':
+                chi = np.asarray(mv.chemistry.get_gas_mix_profile(name), float)
+                total += np.array([opac.interp_opacity(tabs[name], TG, PG, T[k], P[k]) * chi[k] for k in range(N)])
+            elif nm == 'CIAContribution':
+                a, b = name.split('-')
+                chi = np.asarray(mv.chemistry.get_gas_mix_profile(a), float) * \
+                    np.asarray(mv.chemistry.get_gas_mix_profile(b), float)
+                total += np.array([fx.cia_ref(cias[name], CIA_T, T[k]) * chi[k] for k in range(N)])
+            else:
+                chi = np.asarray(mv.chemistry.get_gas_mix_profile(name), float)
+                total += rayleigh_sigma_from_name(name, grid)[None, :] * chi[:, None]
         # the source alone: slant optical depth with density (squared for collision pairs)
         if c.name in T_c:
             tau_alone = rt.slant_tau(total, dens, segs, 2 if nm == 'CIAContribution' else 1)
